@@ -13,6 +13,7 @@ package main
 // output {"op":"header","n":N,"limit":CompareLimit,"ops":[names]}
 //        {"op":"val","i":i,"type":..,"enc":<value>,"ptr":k,"time":{"sec":big,"ns":n},"dur":big}
 //        {"op":"row","i":i,"hash":{"ok":b,"oks":[b,b,b],"h":[[hi,lo],[hi,lo],[hi,lo]],"err":..},"m":{name:[codes]},"errs":[..]}
+//        row.hf = {"ok":b,"v":[hi,lo]}: the hash() built-in applied to the value
 // matrix codes: 0 False, 1 True, 2 error, 3 non-Boolean result, 4 Go panic
 
 import (
@@ -159,6 +160,33 @@ func init() {
 		}
 		takeHash() // before any comparison
 
+		// the hash() built-in (defined for strings and bytes only): [hi16, lo16] of the 32-bit result
+		hashFn := starlark.Universe["hash"]
+		hf := make([]obj, n)
+		for i, v := range pool {
+			hf[i] = func() (o obj) {
+				defer func() {
+					if r := recover(); r != nil {
+						o = obj{"ok": false, "panic": fmt.Sprint(r)}
+					}
+				}()
+				res, err := starlark.Call(th, hashFn, starlark.Tuple{v}, nil)
+				if err != nil {
+					return obj{"ok": false}
+				}
+				x, ok := res.(starlark.Int)
+				if !ok {
+					return obj{"ok": false, "panic": "hash returned " + res.Type()}
+				}
+				i64, ok := x.Int64()
+				if !ok || i64 < -(1<<31) || i64 >= 1<<32 {
+					return obj{"ok": false, "panic": "hash out of range: " + x.String()}
+				}
+				u := uint32(i64)
+				return obj{"ok": true, "v": []int{int(u >> 16), int(u & 0xffff)}}
+			}()
+		}
+
 		rows := make([]obj, n)
 		for i, x := range pool {
 			m := map[string][]int{}
@@ -187,6 +215,7 @@ func init() {
 		takeHash() // after freezing
 		for i := range rows {
 			rows[i]["hash"] = hashes[i]
+			rows[i]["hf"] = hf[i]
 			nw.write(rows[i])
 		}
 		return nil
